@@ -92,6 +92,8 @@ SETS = {
               w=None, r="rd", kind="full"),
     "E": dict(tmpl="E/{sat}/{year}{month}{day}T{hour}{minute}{second}.dat", z=False, p=False, w="we", r=None, kind="start"),
     "F": dict(tmpl="F/{year}/{month}/{sat}_{day}.dat", z=False, p=False, w=None, r=None, kind="day"),
+    # no placeholder in any directory name (flat): the path setter must forget the sub directory of a previous path
+    "H": dict(tmpl="H/{sat}_{year}{month}{day}T{hour}{minute}{second}.dat", z=False, p=False, w=None, r="rh", kind="start"),
 }
 UNFILLED_TMPL = "G/{orbit}/{year}{month}{day}{hour}{minute}{second}.dat"      # a placeholder no source file can fill
 
@@ -117,6 +119,8 @@ def own_name(sid, key):
         return f"D/{sat}/{s:%Y}{s:%j}-{e:%Y}{e:%j}_{s:%H%M%S}-{e:%H%M%S}.dat"
     if sid == "E":
         return f"E/{sat}/{s:%Y%m%d}T{s:%H%M%S}.dat"
+    if sid == "H":
+        return f"H/{sat}_{s:%Y%m%d}T{s:%H%M%S}.dat"
     return f"F/{s:%Y}/{s:%m}/{sat}_{s:%d}.dat"
 
 
@@ -165,9 +169,13 @@ def walk(root):
     return out
 
 
-def decode_expect(sid, struct, tag=None):
-    """what reading `struct` through fileset sid returns (token) or None = raises (oracle)"""
-    z, p = SETS[sid]["z"], SETS[sid]["p"]
+def decode_expect(sid, struct, tag=None, via=None):
+    """what reading `struct` through fileset sid returns (token) or None = raises (oracle).  `via`: the file lies in
+    sid's template but is read through a FileSet object that is a copy of fileset `via` (returned by move(<string>)):
+    decompression goes by the path's suffix, reader arguments and post_reader come from `via`."""
+    z = SETS[sid]["z"]
+    p = SETS[via or sid]["p"]
+    tag = tag or rtag(via or sid)
     if z:
         if not struct.startswith("z:r:"):
             return None
@@ -176,7 +184,7 @@ def decode_expect(sid, struct, tag=None):
         if not struct.startswith("r:"):
             return None
         tok = struct[2:]
-    tok = f"R{tag or rtag(sid)}." + tok
+    tok = f"R{tag}." + tok
     return ("P." + tok) if p else tok
 
 
@@ -193,6 +201,9 @@ def history_case(ck, scratch, nops, use_model=True, pool="thread"):
     rng = ck.rng
     root = tempfile.mkdtemp(dir=scratch)
     ids = sorted(rng.sample(list(SETS), rng.choice([3, 3, 4])))
+    if "H" not in ids and rng.random() < 0.4:
+        ids = sorted(ids[:-1] + ["H"])
+    returned = {}                               # dst -> (FileSet returned by move(<string template>), source id)
     sets = make_sets(root, pool, ids)
     oracle = {sid: {} for sid in ids}           # key (as the fileset knows it) -> structure
     lines = [f"fileset {sid} {int(SETS[sid]['z'])} {int(SETS[sid]['p'])} {wtag(sid)} {rtag(sid)}" for sid in ids]
@@ -328,13 +339,21 @@ def history_case(ck, scratch, nops, use_model=True, pool="thread"):
             elif r < 0.5:
                 sid = rng.choice([s for s in ids if oracle[s]] or ids[:1])
                 qs, qe = window()
-                fs = sets[sid]
-                found = list(fs.find(qs, qe, no_files_error=False))
+                fs, via = sets[sid], None
+                if sid in returned and rng.random() < 0.5:
+                    fs, via = returned[sid]             # the object move(<string>) returned stands in for the target fileset
+                try:
+                    found = list(fs.find(qs, qe, no_files_error=False))
+                except Exception as e:      # noqa
+                    ck.violation("move-return-stale-subdir" if via else "find-raised",
+                                 f"find on {'the fileset returned by move' if via else sid} raised {type(e).__name__}: {e}", case)
+                    return
                 got = sorted((os.path.relpath(i.path, root), us(i.times[0]), us(i.times[1]), i.attr.get("sat")) for i in found)
                 want = sorted((own_name(sid, k), us(k[0]), us(k[1]), k[2]) for k in oracle[sid] if overlaps(k, qs, qe))
                 if got != want:
-                    ck.violation("find", f"find({sid}, {qs}, {qe}) = {got[:3]} expected {want[:3]}", case)
-                ops.append(["find", sid, us(qs), us(qe)])
+                    ck.violation("move-return-stale-subdir" if via else "find",
+                                 f"find({sid}{' via the fileset returned by move' if via else ''}, {qs}, {qe}) = {got[:3]} expected {want[:3]}", case)
+                ops.append(["find", sid, us(qs), us(qe), via])
                 lines.append(f"find {sid} {us(qs)} {us(qe)}")
                 checks.append((len(lines) - 1, " ".join(f"{hx(p)}:{a}_{b}_{s}" for p, a, b, s in sorted(got)) or "-", "find"))
                 for i in found:
@@ -346,11 +365,12 @@ def history_case(ck, scratch, nops, use_model=True, pool="thread"):
                     except Exception:      # noqa
                         tok = None
                     if key is not None:
-                        want_tok = decode_expect(sid, oracle[sid][key], tg)
+                        want_tok = decode_expect(sid, oracle[sid][key], tg, via)
                         if tok != want_tok:
-                            ck.violation("read", f"read({rel}, tag={tg}) = {tok} expected {want_tok}", case)
-                    lines.append(f"read {sid} {hx(rel)} {tg or '-'}")
-                    checks.append((len(lines) - 1, tok if tok is not None else "raise", f"read {rel}"))
+                            ck.violation("read", f"read({rel}, tag={tg}{', via returned fileset' if via else ''}) = {tok} expected {want_tok}", case)
+                    if via is None or SETS[via]["p"] == SETS[sid]["p"]:
+                        lines.append(f"read {sid} {hx(rel)} {tg or (rtag(via) if via else '-')}")
+                        checks.append((len(lines) - 1, tok if tok is not None else "raise", f"read {rel}"))
                 tag = f"find {sid}"
             elif r < 0.8:
                 src = rng.choice([s for s in ids if oracle[s]] or ids[:1])
@@ -407,6 +427,33 @@ def history_case(ck, scratch, nops, use_model=True, pool="thread"):
                     if not copy:
                         del oracle[src][k]
                     oracle[dst][reps[k]] = c
+                # the fileset move() returns must be usable as the target: find over everything, len, read
+                if not string_target and ret is not sets[dst]:
+                    ck.violation("move-return", "move(<FileSet>) did not return that FileSet", case)
+                if string_target:
+                    returned[dst] = (ret, src)
+                    want_all = sorted(own_name(dst, k) for k in oracle[dst])
+                    try:
+                        got_all = sorted(os.path.relpath(i.path, root) for i in ret.find(no_files_error=False))
+                        n_ret = len(ret)
+                    except Exception as e:      # noqa
+                        ck.violation("move-return-stale-subdir", f"the fileset returned by move {src}->'{SETS[dst]['tmpl']}' cannot be searched: "
+                                                                 f"{type(e).__name__}: {e} (the {len(want_all)} moved files exist)", case)
+                        return
+                    if got_all != want_all or n_ret != len(want_all):
+                        ck.violation("move-return-stale-subdir", f"the fileset returned by move {src}->'{SETS[dst]['tmpl']}' finds {len(got_all)} files "
+                                                                 f"(len {n_ret}), the target holds {len(want_all)}: missing {sorted(set(want_all) - set(got_all))[:3]}", case)
+                        return
+                    for i in ret.find(no_files_error=False):
+                        rel = os.path.relpath(i.path, root)
+                        key = next(k for k in oracle[dst] if own_name(dst, k) == rel)
+                        try:
+                            tok = token(ret.read(i))
+                        except Exception:      # noqa
+                            tok = None
+                        if tok != decode_expect(dst, oracle[dst][key], None, src):
+                            ck.violation("read", f"read({rel}) through the fileset returned by move = {tok}, expected "
+                                                 f"{decode_expect(dst, oracle[dst][key], None, src)}", case)
                 ops.append(["move", src, dst, int(copy), conv, mode, len(sel), string_target])
                 ck.count("select/move/" + mode)
                 if period is not None:
@@ -659,6 +706,8 @@ ANCHORS = [("typhon/files/fileset.py", "FileSet.__setitem__"), ("typhon/files/fi
            ("typhon/files/fileset.py", "FileSet._dry_delete"), ("typhon/files/fileset.py", "FileSet.make_dirs"),
            ("typhon/files/fileset.py", "FileSet._configure_pool_and_worker_args"), ("typhon/files/fileset.py", "FileSet._call_map_function"),
            ("typhon/files/fileset.py", "FileSet.map"), ("typhon/files/fileset.py", "FileSet.get_filename"),
+           ("typhon/files/fileset.py", "FileSet._retrieve_time_coverage"), ("typhon/files/fileset.py", "FileSet.copy"),
+           ("typhon/files/fileset.py", "FileSet.find"),
            ("typhon/files/handlers/common.py", "NetCDF4.read"), ("typhon/files/handlers/common.py", "NetCDF4.write"),
            ("typhon/files/handlers/common.py", "CSV.read"), ("typhon/files/handlers/common.py", "CSV.write")]
 
